@@ -270,6 +270,23 @@ def run_engine(res, unit):
     res.executions += 1
     pos_mgr, ks_mgr = r.positions, r.kernel_states.unwrap()
     epochs = list(pos_mgr.get_epochs())
+    # premise of the oracle below: the recorded history is cut at the boundaries of the epochs that
+    # were asked for (one recorded chain per requested epoch, duration // thinning draws each)
+    for mname, mgr in (("positions", pos_mgr), ("kernel_states", ks_mgr)):
+        got_ep = [(ec.type, ec.duration) for ec in mgr.get_epochs()]
+        want_ep = [(ec.type, ec.duration) for ec in eps]
+        lens = []
+        if got_ep == want_ep:
+            for e, ec in enumerate(eps):
+                leaf = jax.tree_util.tree_leaves(mgr.get_specific_chain(e).get().unwrap())[0]
+                lens.append(int(np.shape(leaf)[1]))
+        # positions are thinned; kernel states are stored for every transition
+        want_len = [ec.duration // ec.thinning if mname == "positions" else ec.duration for ec in eps]
+        if got_ep != want_ep or lens != want_len:
+            res.violation("engine", f"recorded-epochs-differ-from-requested-slow:{cfg['slow']}", {"cfg": cfg, "manager": mname},
+                          f"{mname}: recorded epochs {[(str(t), d) for t, d in got_ep]} with lengths {lens}; requested {[(str(t), d) for t, d in want_ep]} with lengths {want_len} - "
+                          "the history handed to slow tuning is not that epoch's history")
+            return
     for kid, (kobj, korder) in kernels.items():
         diag = kobj.mm_diag
         kshapes = [shapes[k] for k in korder]
